@@ -5,10 +5,13 @@
 package c03
 
 import (
+	"bytes"
 	"fmt"
+	"io"
 	"os"
 	"runtime"
 	"sort"
+	"strings"
 	"sync"
 	"sync/atomic"
 	"testing"
@@ -134,6 +137,8 @@ type reqRec struct {
 	Err     string
 	Start   int64
 	End     int64
+	Twin    bool   // sent to the twin cluster (another cluster listing some of the same upstreams, with its own flags)
+	Method  string
 }
 
 type disInt struct {
@@ -168,7 +173,14 @@ type hist struct {
 	bad   bool
 	// reenabled[e]: server e went through an "enable" step in its current incarnation
 	reenabled map[int]bool
-	stop      bool // end the history after this step (a violation left the model and the gateway apart)
+	// twin: a second cluster of the same gateway that lists some of the same upstreams with its OWN disabled flags (static
+	// through the history). Nothing of one cluster's state may leak into the other.
+	twinHost     string
+	twinTok      string
+	twinServers  map[int]bool
+	twinDisabled map[int]bool
+	twinFrom     int64
+	stop         bool // end the history after this step (a violation left the model and the gateway apart)
 	modes []bed.HealthMode
 	// modeLog[e] = the /healthz mode changes of stub e with their instants
 	modeLog [][]modeEv
@@ -340,8 +352,31 @@ func (h *hist) send(g *vkit.Rand, rec *reqRec) {
 	if g.Chance(0.3) {
 		path += "/obj" + fmt.Sprint(g.Intn(9))
 	}
+	// unusual but ordinary clients: writes with bodies as well as reads (a request must reach at most one stub, once)
+	method := "GET"
+	var body io.Reader
+	if g.Chance(0.35) {
+		method = []string{"POST", "PUT", "PATCH", "DELETE"}[g.Intn(4)]
+		if method == "POST" {
+			path = fmt.Sprintf("/api/v1/namespaces/ns/r%d", rec.Policy)
+		} else if !strings.Contains(path, "/obj") {
+			path += "/obj0"
+		}
+		if method != "DELETE" {
+			body = bytes.NewReader(g.Bytes(g.Range(1, 3000)))
+		}
+	}
+	rec.Method = method
+	host := h.host
+	if rec.Twin {
+		host = h.twinHost
+	}
 	rec.Start = bed.Now()
-	resp := h.gw.Do(bed.NewRequest("GET", h.host, path, h.tok, rec.ID, nil))
+	req := bed.NewRequest(method, host, path, h.tok, rec.ID, body)
+	if body != nil {
+		req.Header.Set("Content-Type", "application/json")
+	}
+	resp := h.gw.Do(req)
 	rec.End = bed.Now()
 	rec.Status = resp.Status
 	if resp.Err != nil {
@@ -371,12 +406,29 @@ func (h *hist) stableBurst(g *vkit.Rand, n, step int) {
 		p := g.Intn(h.np)
 		rg := g.Fork("s")
 		wg.Add(1)
+		twin := h.twinHost != "" && g.Chance(0.25)
 		go func() {
 			defer wg.Done()
+			if twin {
+				h.send(rg, &reqRec{Policy: 0, Phase: "twin", Step: step, After: snap, Allowed: h.twinAllowed(), Twin: true})
+				return
+			}
 			h.send(rg, &reqRec{Policy: p, Phase: "stable", Step: step, After: snap, Allowed: snap.pickable(p, h.k)})
 		}()
 	}
 	wg.Wait()
+}
+
+// twinAllowed: the stubs a request to the twin cluster may reach as far as its server list and disabled flags go (the
+// twin's belief about health is not tracked: it probes on its own ticker).
+func (h *hist) twinAllowed() map[int]bool {
+	out := map[int]bool{}
+	for e := range h.twinServers {
+		if !h.twinDisabled[e] {
+			out[e] = true
+		}
+	}
+	return out
 }
 
 // closeInterval judges the probes the stub of a disabled endpoint logged between (disabling sync returned + settle) and
@@ -479,7 +531,52 @@ func (h *hist) genChange(g *vkit.Rand, allowHang bool, tickerWait bool) *change 
 	m := h.m
 	for try := 0; try < 20; try++ {
 		after := m.clone()
-		switch g.Intn(12) {
+		switch g.Intn(13) {
+		case 11: // the cluster object is deleted and created again under the same name with another spec
+			hang := false
+			for e := 0; e < h.k; e++ {
+				if h.modes[e] == bed.HealthHang {
+					hang = true
+				}
+			}
+			if hang || m.Bad != "" {
+				continue
+			}
+			after = &model{Disabled: map[int]bool{}, Belief: map[int]bool{}, Mode: m.clone().Mode}
+			for _, e := range g.Perm(h.k)[:g.Range(1, h.k)] {
+				after.Servers = append(after.Servers, e)
+				if g.Chance(0.2) {
+					after.Disabled[e] = true
+				}
+				after.Belief[e] = !after.Disabled[e] && healthyMode(h.modes[e])
+			}
+			for p := 0; p < h.np; p++ {
+				after.Subsets = append(after.Subsets, h.genSubset(g))
+			}
+			return &change{Kind: "cluster-recreate", after: after, run: func() bool {
+				for _, di := range h.open {
+					h.closeInterval(di, bed.Now())
+				}
+				if sr := h.gw.Delete(h.host); sr.Err != nil || sr.Panic != nil || sr.Requeue {
+					h.fail(fmt.Sprintf("controller did not delete the cluster: %+v", sr))
+					return false
+				}
+				h.reenabled = map[int]bool{}
+				if g.Bool() {
+					time.Sleep(time.Duration(g.Range(0, 20)) * time.Millisecond)
+				}
+				if !h.apply(after) {
+					return false
+				}
+				for _, e := range after.Servers {
+					if after.Disabled[e] {
+						h.open[e] = &disInt{stub: e, from: bed.Now(), class: "created-disabled", ep: h.endpoint(e)}
+					} else if after.Belief[e] && !h.waitReady(e, true) {
+						return false
+					}
+				}
+				return true
+			}}
 		case 0, 1, 2: // health outcome of an enabled server changes
 			var cand []int
 			for _, s := range m.Servers {
@@ -694,7 +791,11 @@ func (h *hist) probes(e int) []int64 { return h.stubs[e].ProbesFrom(h.gwTok) }
 
 func (h *hist) close() {
 	for _, s := range h.stubs {
-		if n := s.StrayProbeCount(h.gwTok); n > 0 {
+		n := s.StrayProbeCount(h.gwTok)
+		if h.twinTok != "" {
+			n -= len(s.ProbesFrom(h.twinTok))
+		}
+		if n > 0 {
 			h.r.Count("observation_stray_probes_from_other_histories", n)
 		}
 	}
@@ -743,15 +844,67 @@ func runHistory(r *vkit.R, id int, g *vkit.Rand, steps int, allowHang, tickerWai
 	for p := 0; p < h.np; p++ {
 		m.Subsets = append(m.Subsets, h.genSubset(g))
 	}
-	if !h.apply(m) {
+	// start-up: in half of the histories requests are already arriving while the cluster is created and its endpoints are
+	// probed for the first time (before: no such cluster, nothing may be forwarded; after: the converged first state)
+	var startWG sync.WaitGroup
+	if g.Bool() {
+		none := &model{Disabled: map[int]bool{}, Belief: map[int]bool{}, Mode: m.Mode, Subsets: make([][]int, h.np)}
+		for w := g.Range(2, 5); w > 0; w-- {
+			rg := g.Fork("start")
+			startWG.Add(1)
+			go func() {
+				defer startWG.Done()
+				for j := 0; j < 6; j++ {
+					p := rg.Intn(h.np)
+					h.send(rg, &reqRec{Policy: p, Phase: "racing", Step: 0, Change: "cluster-create", Before: none, After: m, Allowed: m.pickable(p, k)})
+					r.Count("requests_during_cluster_creation", 1)
+				}
+			}()
+		}
+	}
+	ok := h.apply(m)
+	if ok {
+		for _, e := range m.Servers {
+			if m.Disabled[e] {
+				h.open[e] = &disInt{stub: e, from: bed.Now(), class: "created-disabled", ep: h.endpoint(e)}
+			} else if m.Belief[e] && !h.waitReady(e, true) {
+				ok = false
+				break
+			}
+		}
+	}
+	startWG.Wait()
+	if !ok {
 		return
 	}
-	for _, e := range m.Servers {
-		if m.Disabled[e] {
-			h.open[e] = &disInt{stub: e, from: bed.Now(), class: "created-disabled", ep: h.endpoint(e)}
-		} else if m.Belief[e] && !h.waitReady(e, true) {
+	// twin cluster (a third of the histories): lists a seeded part of the same upstreams with its own disabled flags
+	if g.Chance(0.35) {
+		h.twinHost = fmt.Sprintf("c03-%d-twin.test", id)
+		h.twinTok = fmt.Sprintf("gwt-c03-%d-%s", id, h.twinHost)
+		h.twinServers, h.twinDisabled = map[int]bool{}, map[int]bool{}
+		var servers []string
+		dis := map[string]bool{}
+		for _, e := range g.Perm(k)[:g.Range(1, k)] {
+			h.twinServers[e] = true
+			servers = append(servers, h.stubs[e].URL)
+			if g.Chance(0.35) {
+				h.twinDisabled[e] = true
+				dis[h.stubs[e].URL] = true
+			}
+		}
+		sr := h.gw.Apply(bed.BuildCluster(bed.ClusterSpec{Name: h.twinHost, Servers: servers, Disabled: dis, Token: h.twinTok}))
+		if sr.Err != nil || sr.Panic != nil || sr.Requeue {
+			h.fail(fmt.Sprintf("controller did not apply the twin cluster: %+v", sr))
 			return
 		}
+		h.twinFrom = bed.Now()
+		for e := range h.twinServers {
+			if !h.twinDisabled[e] && healthyMode(h.modes[e]) && !h.gw.WaitReady(h.twinHost, h.stubs[e].URL, true, watchdog) {
+				h.fail("twin cluster endpoint did not become ready within the watchdog")
+				return
+			}
+		}
+		r.Count("histories_with_a_twin_cluster_sharing_upstreams", 1)
 	}
 	h.stableBurst(g, g.Range(8, 16), 0)
 
@@ -831,6 +984,23 @@ func runHistory(r *vkit.R, id int, g *vkit.Rand, steps int, allowHang, tickerWai
 	for _, di := range h.open {
 		h.closeInterval(di, bed.Now())
 	}
+	// the twin cluster's disabled endpoints were created disabled: no probe with the twin's credential may have reached
+	// them (whatever the main cluster, which may have the same upstream enabled, does)
+	for e := range h.twinDisabled {
+		r.Count("twin_disabled_endpoints_judged", 1)
+		var late []float64
+		for _, t := range h.stubs[e].ProbesFrom(h.twinTok) {
+			if t > h.twinFrom+int64(settle) {
+				late = append(late, float64(t-h.twinFrom)/1e6)
+			}
+		}
+		if len(late) > 0 {
+			r.Violation("C03/disabled/probe-while-disabled/twin-cluster-created-disabled",
+				fmt.Sprintf("the twin cluster lists stub %d as disabled, yet %d probe(s) carrying the twin cluster's credential reached it %v ms after it was created (the main cluster lists servers %v, disabled %v)",
+					e, len(late), late, h.m.Servers, keys(h.m.Disabled)),
+				map[string]interface{}{"history": h.id, "stub": e, "twin_servers": keys(h.twinServers), "twin_disabled": keys(h.twinDisabled), "model": h.m.clone()})
+		}
+	}
 	h.judge(changes)
 }
 
@@ -848,6 +1018,9 @@ func (h *hist) judge(changes interface{}) {
 	for _, rec := range h.recs {
 		r.Eval(1)
 		r.Count("requests_"+rec.Phase, 1)
+		if rec.Method == "POST" || rec.Method == "PUT" || rec.Method == "PATCH" {
+			r.Count("requests_with_a_body", 1)
+		}
 		hits := seenBy[rec.ID]
 		st := rec.After
 		key := fmt.Sprintf("%v|%v|%v|%v|%d|%s", st.Servers, st.Disabled, st.Belief, st.Subsets[rec.Policy], rec.Policy, rec.Phase)
@@ -876,7 +1049,17 @@ func (h *hist) judge(changes interface{}) {
 			e := hits[0]
 			if !rec.Allowed[e] {
 				why := rec.After.why(rec.Policy, e)
+				if rec.Twin {
+					why = "not-in-server-list"
+					if h.twinServers[e] {
+						why = "disabled"
+					}
+				}
 				what := fmt.Sprintf("request %s (policy %d) was forwarded to stub %d which is %s in the current state", rec.ID, rec.Policy, e, why)
+				if rec.Twin {
+					what = fmt.Sprintf("request %s for the twin cluster %s (servers %v, disabled %v) was forwarded to stub %d, which is %s in THAT cluster (the main cluster of the history lists servers %v, disabled %v)",
+						rec.ID, h.twinHost, keys(h.twinServers), keys(h.twinDisabled), e, why, rec.After.Servers, keys(rec.After.Disabled))
+				}
 				if rec.Before != nil {
 					what = fmt.Sprintf("request %s (policy %d) sent around one change (%s) was forwarded to stub %d, which may be picked neither before (%s) nor after (%s) the change",
 						rec.ID, rec.Policy, rec.Change, e, rec.Before.why(rec.Policy, e), why)
@@ -1281,6 +1464,10 @@ func TestCheck(t *testing.T) {
 		r.Require(r.Counter("disabled_intervals_judged") >= int64(tierN(r, 40, 500)), "too few disabled intervals judged")
 		r.Require(r.Counter("disabled_triggers") >= int64(tierN(r, 60, 900)), "too few TriggerHealthCheck calls on disabled endpoints")
 		r.Require(r.Counter("hung_probe_scenarios") >= int64(hung*8/10), "too few hung-probe scenarios completed")
+		r.Require(r.Counter("change_cluster-recreate") >= int64(tierN(r, 10, 200)), "too few delete-and-recreate steps")
+		r.Require(r.Counter("histories_with_a_twin_cluster_sharing_upstreams") >= int64(tierN(r, 8, 120)) && r.Counter("requests_twin") >= int64(tierN(r, 300, 6000)), "too few histories with a twin cluster")
+		r.Require(r.Counter("requests_during_cluster_creation") >= int64(tierN(r, 150, 2500)), "too few requests sent while a cluster was being created")
+		r.Require(r.Counter("requests_with_a_body") >= int64(tierN(r, 1500, 25000)), "too few write requests with bodies")
 		r.Require(r.Counter("reenable_scenarios") >= int64(reenables*3/4), "too few disable/enable/health-change scenarios completed")
 		r.Require(r.Counter("probe_timeout_scenarios") >= int64(timeouts*3/4), "too few probe-timeout scenarios completed")
 		r.Require(r.Counter("racing_disable_iterations") >= int64(racers*racerIters*8/10), "too few disable-while-recording-probe-results iterations")
